@@ -56,19 +56,9 @@ def _run_one(args):
         c = next(c for c in mod.CONTRACTS if c.id == cid)
         known = [k for k in load_known() if k.get('contract') == cid and k.get('status') == 'known']
         r = run_contract(c, tier, seed, known)
-        # confirm violations natively (replay on the same tree the VCs came from)
-        from pyvc.contract import native_post
         for v in r['violations']:
-            v['confirmed'] = None
-            if v.get('inputs') is not None and c.native is not None:
-                try:
-                    holds, nat = native_post(c, v['inputs'], v['obligation'])
-                    v['confirmed'] = (holds is False)
-                    v['native_outcome'] = repr(nat)[:300]
-                except Exception as e:
-                    v['confirmed'] = None
-                    v['native_outcome'] = f'replay crashed: {e!r}'
             v['inputs_lit'] = {k: literal(x) for k, x in (v.get('inputs') or {}).items()}
+            v['extra_lit'] = {k: literal(x) for k, x in (v.get('extra') or {}).items()}
             v.pop('inputs', None)
         return r
     except Exception as e:
